@@ -73,6 +73,14 @@ def concept_case_and_number(rnd, sentences):
         if pl and pl != c:
             out.append(('plural of %s after number of' % c, r'(?<=the number of )%s\b' % c, pl))
             out.append(('plural of %s after a cardinality' % c, r'((?:exactly|at most|at least|and) \d+ )%s\b' % c, r'\1' + pl))
+    # third person of a declared verb: 'person P lives in city C' / 'person P live in city C' name the same relation
+    for s in sentences:
+        m = re.search(r'\b(?:can|must) (?!be\b)([a-z]+)\b', s)
+        if m and not m.group(1).endswith('s') and m.group(1) not in ('have', 'be'):
+            w = m.group(1)
+            if ('verb person: %ss -> %s' % (w, w), ) not in [(x[0],) for x in out]:
+                out.append(('verb person: %ss -> %s' % (w, w), r'(?<=[A-Za-z0-9] )%ss\b(?= )' % w, w))
+                out.append(('verb person: %s -> %ss' % (w, w), r'(?<=[A-Z0-9] )%s\b(?= )' % w, w + 's'))
     return out
 
 
